@@ -40,9 +40,14 @@ func verifC16_seq() {
 	}
 	vClassify("pre", preName)
 	// what the peer does after that: echo a close (early, it is already in the pipe), or stay silent
-	peerEcho := vChoose("peerEcho", 2) == 1
+	echoKind := vChoose("peerEcho", 3) // 0: silent, 1: a Close frame with a status code, 2: a Close frame without one
+	peerEcho := echoKind != 0
 	if peerEcho && pre != 1 {
-		in = append(in, mk(vFrame{fin: true, opcode: 8, payload: []byte{0x03, 0xe8}}))
+		if echoKind == 2 {
+			in = append(in, mk(vFrame{fin: true, opcode: 8}))
+		} else {
+			in = append(in, mk(vFrame{fin: true, opcode: 8, payload: []byte{0x03, 0xe8}}))
+		}
 	}
 	t := vNewTransport(vEncodeFrames(in))
 	t.endMode = vEndBlock
@@ -123,6 +128,14 @@ func verifC16_guard() {
 	// reach the state through the public API: a Close frame goes out (the peer never answers: writeClose only)
 	err := c.writeClose(vBG, StatusNormalClosure, "bye")
 	vAssert(err == nil, "C16.guard.setup")
+	// control frames may still follow the Close frame (a Ping of ours, the Pong to a Ping that arrives while we wait for
+	// the peer's Close frame): they do not switch the guard off again
+	switch vChoose("controlAfterClose", 3) {
+	case 1:
+		c.writeControl(vBG, opPong, vBytes("pp", 1))
+	case 2:
+		c.writeControl(vBG, opPing, vBytes("pp", 1))
+	}
 	before := len(t.out)
 	vReach("C16.guard.close-sent")
 	fin := vBool("fin")
